@@ -126,6 +126,12 @@ class P(Process):
             rec['asked'] = self._last_poll['ts']
         self.ncalls.append(rec)
         n = self.name
+        if run.cfg.get('empties') and run.ctx.flag('empty'):
+            # the process has nothing to report for this interval
+            rec['d'] = 0
+            rec['empty'] = True
+            run.ctx.goal('empty update')
+            return {}
         return {'s': {'x_' + n: d, 'y_' + n: Tagged((n, k)), 'z': d}}
 
 
